@@ -195,7 +195,7 @@ TEnd ==
 StutterNames == {"Open", "ManifestSnapshot",
                  "CompactCall", "CompactRet", "FlushCall", "FlushRet", "Close", "Closing",
                  "CloseRet", "RecoverWal", "BadState", "Fault", "BgBegin", "DescrCall", "DescrRet",
-                 "BgEnd"}
+                 "BgEnd", "TableOpen"}
 
 TStutter ==
   /\ l <= Len(Rec) /\ Rec[l].e \in StutterNames
